@@ -223,7 +223,9 @@ func errorChainToMain(c *an.Ctx, r *runnerRoles, rule string) {
 		reachesRecorder := recorders[caller]
 		if !reachesRecorder && inPkgs("pkg/scheduler")(caller) {
 			// the error is handed to the recording helper as an argument
-			for g := range p.Reach([]*ssa.Function{caller}, func(e an.CallEdge) bool { return e.Kind == an.EdgeCall && inPkgs("pkg/scheduler")(e.Callee) && e.Callee != schedule }) {
+			for g := range p.Reach([]*ssa.Function{caller}, func(e an.CallEdge) bool {
+				return e.Kind == an.EdgeCall && inPkgs("pkg/scheduler")(e.Callee) && e.Callee != schedule
+			}) {
 				if recorders[g] {
 					reachesRecorder = true
 				}
@@ -407,7 +409,7 @@ func sequentialTargets(c *an.Ctx, r *runnerRoles, rule string) {
 		if !inPkgs("cmd/taskctl")(fn) {
 			continue
 		}
-		for _, l := range argLoops(fn) {
+		for _, l := range argLoops(p, fn) {
 			for b := range l.Blocks {
 				for _, in := range b.Instrs {
 					ci, ok := in.(ssa.CallInstruction)
@@ -439,23 +441,130 @@ func sequentialTargets(c *an.Ctx, r *runnerRoles, rule string) {
 	}
 }
 
-// argLoops returns the loops of fn ranging over (cli.Args).Slice().
-func argLoops(fn *ssa.Function) []*an.Loop {
+// argLoops returns the loops of fn ranging over (cli.Args).Slice(), or over
+// that list cut at the first `--` by a helper of the package (cutBy).
+func argLoops(p *an.Prog, fn *ssa.Function) []*an.Loop {
 	var out []*an.Loop
 	for _, l := range an.Loops(fn) {
-		op := l.RangeOperand()
-		if op == nil {
-			continue
-		}
-		for _, src := range an.Sources(op) {
-			if call, ok := src.(*ssa.Call); ok {
-				if strings.HasSuffix(an.ShortCallee(&call.Call), "cli/v2.Args).Slice") {
-					out = append(out, l)
-				}
-			}
+		if isArgLoop, _ := argLoopOf(p, l); isArgLoop {
+			out = append(out, l)
 		}
 	}
 	return out
+}
+
+func isArgsSlice(v ssa.Value) bool {
+	for _, src := range an.Sources(v) {
+		if call, ok := src.(*ssa.Call); ok {
+			if strings.HasSuffix(an.ShortCallee(&call.Call), "cli/v2.Args).Slice") {
+				return true
+			}
+		}
+	}
+	return false
+}
+
+// argLoopOf tells whether l ranges over the command-line arguments and, when
+// the list went through a helper that cuts it at the first `--`, that helper.
+func argLoopOf(p *an.Prog, l *an.Loop) (bool, *ssa.Function) {
+	op := l.RangeOperand()
+	if op == nil {
+		return false, nil
+	}
+	if isArgsSlice(op) {
+		return true, nil
+	}
+	for _, src := range an.Sources(op) {
+		call, ok := src.(*ssa.Call)
+		if !ok {
+			continue
+		}
+		g := call.Call.StaticCallee()
+		if g == nil || g.Blocks == nil || !an.InModule(g) || len(g.Params) != 1 || len(call.Call.Args) != 1 {
+			continue
+		}
+		if isArgsSlice(call.Call.Args[0]) && cutsAtDash(p, g) {
+			return true, g
+		}
+	}
+	return false, nil
+}
+
+// cutsAtDash verifies that g(args) returns the prefix of args before the
+// first element equal to `--` (all of args when there is none): g ranges over
+// its parameter; an element equal to `--` makes it return args[:index]; any
+// other element takes the loop to its next pass without leaving; after the
+// loop it returns args itself.
+func cutsAtDash(p *an.Prog, g *ssa.Function) bool {
+	prm := g.Params[0]
+	var loop *an.Loop
+	for _, l := range an.Loops(g) {
+		if op := l.RangeOperand(); op != nil && an.SameValue(op, prm) {
+			loop = l
+		}
+	}
+	if loop == nil {
+		return false
+	}
+	keys, elems := loop.RangeKeyValue()
+	isOneOf := func(v ssa.Value, set []ssa.Value) bool {
+		for _, s := range set {
+			if an.SameValue(v, s) {
+				return true
+			}
+		}
+		return false
+	}
+	for _, dash := range []bool{true, false} {
+		dash := dash
+		ex := &an.Explorer{P: p, NoReturn: noReturn}
+		loop.Bound(ex)
+		tested := false
+		ex.Atom = func(v ssa.Value) (an.AVal, bool) {
+			bo, ok := v.(*ssa.BinOp)
+			if !ok || (bo.Op != token.EQL && bo.Op != token.NEQ) || !isOneOf(bo.X, elems) {
+				return an.AVal{}, false
+			}
+			if s, isS := an.ConstString(bo.Y); isS && s == "--" {
+				tested = true
+				return an.ABool((bo.Op == token.EQL) == dash), true
+			}
+			return an.AVal{}, false
+		}
+		outs := ex.Run(g, loop.BodyEntry(), loop.Header, nil)
+		if len(outs) == 0 || !tested {
+			return false
+		}
+		for _, o := range outs {
+			if dash {
+				if o.End != "return" || len(o.RetVals) != 1 {
+					return false
+				}
+				sl, ok := o.RetVals[0].(*ssa.Slice)
+				if !ok || !an.SameValue(sl.X, prm) || sl.Low != nil || sl.High == nil || !isOneOf(sl.High, keys) {
+					return false
+				}
+			} else if !(o.End == "stop" && o.StopBlock == loop.Header) {
+				return false
+			}
+		}
+	}
+	// after the loop: the whole list
+	exit := loop.NormalExit()
+	if exit == nil {
+		return false
+	}
+	n := 0
+	for _, ret := range an.Returns(g) {
+		if loop.Blocks[ret.Block()] || !an.CanReach(exit, ret.Block()) {
+			continue
+		}
+		n++
+		if !an.SameValue(an.RetVal(ret, 0), prm) {
+			return false
+		}
+	}
+	return n > 0
 }
 
 // dispatchers are the functions that run a target: TaskRunner.Run,
